@@ -551,6 +551,12 @@ func DecodeEventQueryResponse(payload []byte) (*EventQueryResult, error) {
 		if res.Model != nil || res.Collection != nil {
 			return nil, errInvalidResponse
 		}
+		// Assert no event is null
+		for _, ev := range res.Events {
+			if ev == nil {
+				return nil, errInvalidResponse
+			}
+		}
 	case res.Model != nil:
 		if res.Collection != nil {
 			return nil, errInvalidResponse
